@@ -265,7 +265,7 @@ def check(prop, tier, seed, a, workdir, t_start):
             else:
                 undec.append('%s[%s]: vacuity canary did not fail (contradictory precondition or unreachable call)' % (g.name, cfg))
         total = ok + len(fails)
-        is_bounded = bool(g.bounded or g.family or (g.unwind and g.attrs.get('complete_unwind') != 'yes'))
+        is_bounded = bool(g.bounded or (g.family and g.attrs.get('cases') != 'complete') or (g.unwind and g.attrs.get('complete_unwind') != 'yes'))
         if is_bounded:
             bounded.append(dict(group=g.name, cfg=cfg, bound=(g.bounded or '') + ((' ' + r['label']) if r.get('label') else '') +
                                 ((' unwind=%s with unwinding assertions' % g.unwind) if g.unwind else ''),
